@@ -128,10 +128,15 @@ def synth_field(spec):
             a.set_data(cfdm.Data(vals))
             a.set_property("long_name", aux.get("stdname") or "station name")
         else:
-            a.set_data(cfdm.Data(np.arange(n, dtype="f4") + 0.5))
+            a.set_data(cfdm.Data(np.arange(n, dtype="f4") + 0.5 + aux.get("offset", 0)))
             a.set_property("units", "K")
             if aux.get("stdname"):
                 a.set_property("standard_name", aux["stdname"])
+            if aux.get("bounds"):
+                # the same bounds values whatever the offset: coordinates that differ can
+                # still have equal bounds
+                b = cfdm.Bounds(data=cfdm.Data(np.arange(2 * n, dtype="f4").reshape(n, 2)))
+                a.set_bounds(b)
         if aux.get("ncvar"):
             a.nc_set_variable(aux["ncvar"])
         f.set_construct(a, axes=[keys[ax]])
@@ -215,6 +220,14 @@ def describe_input(f):
              "dtype": tag(c.data.dtype) if c.has_data() else None,
              "shape": list(c.data.shape) if c.has_data() else None,
              "has_bounds": bool(getattr(c, "has_bounds", lambda: False)())}
+        if e["type"] == "dimension_coordinate":
+            # the netCDF dimension name set on its domain axis (the writer's first choice
+            # for a dimension coordinate that has no netCDF variable name of its own)
+            try:
+                ax = f.get_data_axes(key)[0]
+                e["ncdim"] = f.domain_axis(ax).nc_get_dimension(None)
+            except Exception:
+                e["ncdim"] = None
         if e["type"] == "cell_measure":
             e["external"] = bool(c.nc_get_external())
         cons.append(e)
